@@ -982,3 +982,113 @@ func sortedFuncs(m map[*ssa.Function]bool) []*ssa.Function {
 	sort.Slice(out, func(i, j int) bool { return FuncName(out[i]) < FuncName(out[j]) })
 	return out
 }
+
+// ---------------------------------------------------------------------------
+// general path search
+
+// pathExists: is there a CFG path starting just after `from` (function entry
+// when nil) that reaches an instruction satisfying `to`, never executing an
+// instruction satisfying `avoid` first and never taking an edge for which
+// cut(block, succIndex) is true? Panicking instructions end a path.
+func pathExists(f *ssa.Function, from ssa.Instruction, to, avoid func(ssa.Instruction) bool, cut func(*ssa.BasicBlock, int) bool) bool {
+	if len(f.Blocks) == 0 {
+		return false
+	}
+	seen := map[*ssa.BasicBlock]bool{}
+	var scan func(b *ssa.BasicBlock, start int) bool
+	scan = func(b *ssa.BasicBlock, start int) bool {
+		for i := start; i < len(b.Instrs); i++ {
+			in := b.Instrs[i]
+			if to(in) {
+				return true
+			}
+			if avoid != nil && avoid(in) {
+				return false
+			}
+			if panicsAt(in) {
+				return false
+			}
+		}
+		for si, s := range b.Succs {
+			if cut != nil && cut(b, si) {
+				continue
+			}
+			if seen[s] {
+				continue
+			}
+			seen[s] = true
+			if scan(s, 0) {
+				return true
+			}
+		}
+		return false
+	}
+	if from == nil {
+		seen[f.Blocks[0]] = true
+		return scan(f.Blocks[0], 0)
+	}
+	return scan(from.Block(), idxIn(from)+1)
+}
+
+func isReturnInstr(in ssa.Instruction) bool { _, ok := in.(*ssa.Return); return ok }
+
+// condInfo normalises a branch condition: strips negations, returns the
+// comparison and whether the *true* edge means the comparison holds.
+func stripNot(v ssa.Value) (ssa.Value, bool) {
+	pos := true
+	for {
+		if u, ok := v.(*ssa.UnOp); ok && u.Op == token.NOT {
+			v = u.X
+			pos = !pos
+			continue
+		}
+		return v, pos
+	}
+}
+
+// ifEdges lists (block, succIndex) edges on which predicate holds(cond, polarity) is satisfied.
+func cutEdges(f *ssa.Function, holds func(cond ssa.Value, truth bool) bool) func(*ssa.BasicBlock, int) bool {
+	type e struct {
+		b *ssa.BasicBlock
+		i int
+	}
+	set := map[e]bool{}
+	for _, b := range f.Blocks {
+		if len(b.Instrs) == 0 {
+			continue
+		}
+		iff, ok := b.Instrs[len(b.Instrs)-1].(*ssa.If)
+		if !ok {
+			continue
+		}
+		c, pos := stripNot(iff.Cond)
+		if holds(c, pos) {
+			set[e{b, 0}] = true
+		}
+		if holds(c, !pos) {
+			set[e{b, 1}] = true
+		}
+	}
+	return func(b *ssa.BasicBlock, i int) bool { return set[e{b, i}] }
+}
+
+// factHolds: is there a dominating branch fact at `in` for which
+// holds(cond, truth) is true?
+func factHolds(in ssa.Instruction, holds func(cond ssa.Value, truth bool) bool) bool {
+	for _, ft := range factsAt(in) {
+		c, pos := stripNot(ft.Cond)
+		truth := ft.True
+		if !pos {
+			truth = !truth
+		}
+		if holds(c, truth) {
+			return true
+		}
+	}
+	return false
+}
+
+// inLoop: can the instruction reach itself again?
+func inLoop(in ssa.Instruction) bool {
+	return blocksAfter(in)[in.Block()]
+}
